@@ -498,3 +498,22 @@ Proof.
   - unfold some_fail. now rewrite some_permute.
   - unfold some_err. now rewrite some_permute.
 Qed.
+
+(* ---- C07: when every rules file parses, the exit status is the same in every output mode ---- *)
+Theorem modes_agree : forall m m' n rs,
+  well_shaped n rs = true -> all_parsed rs = true ->
+  exit_status (validate_exit m true n rs) = exit_status (validate_exit m' true n rs).
+Proof.
+  intros m m' n rs Hw Hp.
+  assert (G : forall m0, exit_status (validate_exit m0 true n rs) =
+                         if some_err rs then 255 else if some_fail rs then 19 else 0).
+  { intros m0. destruct (some_err rs) eqn:Ee.
+    - destruct m0.
+      + unfold validate_exit. cbn [negb]. now rewrite plain_loop_err.
+      + rewrite structured_exit_spec by assumption. unfold structured_spec. now rewrite Ee.
+      + rewrite junit_exit_spec by assumption. unfold junit_spec. now rewrite Ee.
+    - destruct (some_fail rs) eqn:Ef.
+      + now apply validate_fail_is_19.
+      + apply validate_zero_iff; auto. }
+  now rewrite (G m), (G m').
+Qed.
